@@ -701,7 +701,7 @@ impl<'a> VisitMut for ChainPass<'a> {
             let mut ok = true;
             for name in sp.chain.iter().rev() {
                 if let Expr::MethodCall(mc) = cur {
-                    if mc.method == name.as_str() && mc.turbofish.is_none() {
+                    if mc.method == name.as_str() {  // a turbofish is dropped: the wrapper's signature fixes the types
                         args_rev.push(mc.args.iter().cloned().collect());
                         cur = &mc.receiver;
                         continue;
@@ -1018,7 +1018,7 @@ impl<'a> VisitMut for InsertPass<'a> {
 
 // for an R6-rewritten `for`, the user-visible body is the `Some(P) => { B }` arm
 fn user_loop_body(body: &mut Block) -> &mut Block {
-    let is_r6 = body.stmts.len() == 1 && matches!(&body.stmts[0], Stmt::Expr(Expr::Match(m), _) if norm(&m.expr.to_token_stream().to_string()).starts_with("__vx_it"));
+    let is_r6 = body.stmts.len() == 1 && matches!(&body.stmts[0], Stmt::Expr(Expr::Match(m), _) if { let t = norm(&m.expr.to_token_stream().to_string()); t.starts_with("__vx_it") || (t.starts_with("{") && t.contains("=__vx_it") && t.contains(".next()")) });
     if is_r6 {
         if let Stmt::Expr(Expr::Match(m), _) = &mut body.stmts[0] {
             if let Expr::Block(bb) = &mut *m.arms[0].body { return &mut bb.block; }
